@@ -64,6 +64,76 @@ CHECKS = {
                   "PeerCrypto pairs run against the extracted model on exhaustive (depth 6/8) and random 100+-cycle schedules with a probe in both "
                   "directions after every step.",
              technique="Coq proof (inductive invariant over all schedules, symbolic ECDH) + executed correspondence with probes after every step", ref="4 (C07)"),
+
+ "C01": dict(text="Theorems C01_* (Properties/C01.v): a message signed by a key outside the trusted list is rejected with the handshake object "
+                  "unchanged and no reply; a handshake object completes, PeerCrypto reports Initialized, and a NODE gains a peer entry (for every "
+                  "node state, source and wire value) only for the sender of a handshake message that verified under a trusted key; unverifiable "
+                  "datagrams (random bytes, any flip/truncation/edit of a genuine message) leave every stage and the whole node state unchanged "
+                  "with no reply, also in sequences. PARTIAL: the liveness direction of 'peers exactly when each trusts the other' is decided by "
+                  "the executed correspondence over all trust relations of up to 4 key pairs; signature unforgeability is the modelling decision "
+                  "WBadInit/WInit. Known finding F11 (stale-buffer parse) is reported as KNOWN-FINDING.",
+             technique="Coq proof (case analysis of the handshake/PeerCrypto/node step functions) + executed correspondence at object and node level", ref="4 (C01)"),
+ "C02": dict(text="Theorems C02_* (Properties/C02.v), ideal AEAD: what one end seals the other opens byte-identical whenever it holds the key under "
+                  "that id, the counter fits 56 bits and the window admits it (the nonce premise proved for every such counter); unless plain every "
+                  "PeerCrypto emission is a core seal of (type::body); a datagram opens iff genuine seal under slot key and reconstructed nonce; "
+                  "reflected, foreign-key, bit-flipped and truncated datagrams never open, are ordinary errors and leave the core untouched; the node "
+                  "writes exactly the body of a DATA message. PARTIAL: absence of cleartext in real cipher output is checked on the real "
+                  "datagrams by the correspondence run (all ciphers, every flip/truncation, reflection, 3-node cross-injection).",
+             technique="Coq proof over an ideal-AEAD model of CryptoCore/PeerCrypto + executed correspondence with the real ciphers", ref="4 (C02)"),
+ "C04": dict(text="Theorem C04_no_reuse (Properties/C04.v): for EVERY history (induction, any length below 2^95-2^48) of seals, opens, ticks and "
+                  "rotations to fresh keys on a CryptoCore as CryptoCore::new creates it, no (key, nonce) pair is used twice and every nonce lies in "
+                  "the sender's half; halves are disjoint and the two ends of a handshake take opposite halves; increment is +1 on the big-endian "
+                  "value; a rotated-in key starts a fresh sequence; a counter beyond 56 bits makes the seal unopenable instead of wrapping. "
+                  "Unpredictability of the start value and freshness of ECDH output are assumptions (trusted base). Tied to the code by counters "
+                  "forced near every boundary and the seal log of the real core vs the model.",
+             technique="Coq proof (inductive invariant over all core histories, big-endian arithmetic) + executed correspondence incl. seal log", ref="4 (C04)"),
+ "C05": dict(text="Theorems C05_* (Properties/C05.v), for every sequence of verified messages fed to a handshake attempt (= every loss/duplication/"
+                  "reordering): at most one completion, completion closes the attempt, roles (exactly the responder of the completed exchange sends "
+                  "the first rotation message), no unwrap panic, and the agreement ingredients (same ECDH secret, same cipher, opposite halves). "
+                  "PARTIAL: whole-protocol agreement for every interleaving and the liveness clause are decided by the executed correspondence: "
+                  "all delivery schedules to depth 5 (quick) / 7 (thorough) plus random ones on real InitState/PeerCrypto pairs vs the model, with "
+                  "cross-open, roles, payload and at-most-once oracles and a reliable phase.",
+             technique="Coq proof (induction over message sequences, case analysis of handle_init) + executed correspondence over delivery schedules", ref="4 (C05)"),
+ "C08": dict(text="Theorems C08_* (Properties/C08.v): for every connection object at every stage and every node state (unknown / pending / "
+                  "established source), an unverifiable datagram yields an ordinary error - never the Panic result - leaves peers, pending "
+                  "handshakes, addresses, table and schedule unchanged and emits nothing, also for every sequence; decrypt, Ethernet and IP "
+                  "dissection have no panic result for any input. Tied to the code by every length 0..80 x first byte x receiver state plus "
+                  "mutations of genuine datagrams, run on the real node (catch_unwind, state dump equality) and the model.",
+             technique="Coq proof (case analysis, induction over datagram sequences) + executed correspondence with state-dump oracle", ref="4 (C08)"),
+ "C09": dict(text="Theorems C09_* (Properties/C09.v): forged datagrams leave no trace; a replayed genuine handshake message from an established "
+                  "peer's address leaves the peer entry, routes and own addresses unchanged (after the fix of F8) and reaping the pending object it "
+                  "creates never touches peers or routes; replayed data dies by the C03 window, a re-delivered rotation message changes nothing. "
+                  "PARTIAL: the end-to-end 'payload keeps flowing' statement is decided by the correspondence (every captured datagram re-injected at "
+                  "several offsets from 3 source choices, then a 400 s probe phase on the real nodes vs the model).",
+             technique="Coq proof (node step case analysis + C03/C07 invariants) + executed correspondence with re-injection schedules", ref="4 (C09)"),
+ "C10": dict(text="Theorems C10_* (Properties/C10.v) for every node state and input: an interface read causes only datagrams, each to an established "
+                  "peer; a DATA message from a peer causes at most one interface write of exactly its body and no datagram (no relaying); unknown "
+                  "destination in router mode is dropped and counted; unverifiable datagrams cause nothing; sealed bodies arrive byte-identical. "
+                  "PARTIAL: mesh-wide exactly-once conservation is decided by the correspondence on 2-5 node meshes with a conservation oracle.",
+             technique="Coq proof (case analysis of the node step function) + executed correspondence on meshes with conservation oracle", ref="4 (C10)"),
+ "C13": dict(text="Theorems C13_* (Properties/C13.v): in learning mode a DATA frame from peer P with source key S (VLAN, MAC) makes P the entry for S "
+                  "with the switch timeout, every other key and all claims unchanged; hub/router leave the table untouched; a learned key resolves "
+                  "to its peer; housekeeping removes exactly the expired entries; a disconnecting peer takes its entries along; the key contains the "
+                  "12-bit VLAN id (priority tags fold to untagged: C19). Tied to the code by node-level runs vs a per-VLAN reference switch table.",
+             technique="Coq proof (table lemmas + node step case analysis) + executed correspondence with reference switch table", ref="4 (C13)"),
+ "C14": dict(text="Theorems C14_* (Properties/C14.v): closure - two nodes joined by a path of k+1 connections are directly connected after k "
+                  "peer-exchange rounds (induction on k, any graph); a handshake message carrying the node's own id is rejected at every stage with "
+                  "no state change and no reply (after the fix of F13); addresses listed under the own id are adopted as own and not dialled. "
+                  "PARTIAL: that real nodes perform the exchange step within the interval, also behind NATs, is decided by the correspondence over "
+                  "all connected bootstrap graphs of 2-4 nodes, sampled 5-node graphs, NAT and self-dial scenarios.",
+             technique="Coq proof (induction over exchange rounds; handshake case analysis) + executed correspondence over bootstrap graphs", ref="4 (C14)"),
+ "C15": dict(text="Theorems C15_* (Properties/C15.v): for EVERY u16 peer-timeout/keepalive and every non-empty multiset of advertised timeouts the "
+                  "scheduled announcement delay is at most 1 s or strictly below every advertised timeout (after the fix of F7); a peer whose timeout "
+                  "passed is removed at the next housekeeping tick with all claims and learned entries and re-dialled; the reconnect back-off stays "
+                  "within 1..3600 s for any number of failures. PARTIAL: 'no healthy peer is ever timed out in a stable mesh' is decided by the "
+                  "correspondence on heterogeneous meshes over the timeout grid, silence and 48 h back-off scenarios.",
+             technique="Coq proof (saturating u16 arithmetic, list minimum, fold over expired peers) + executed correspondence on meshes", ref="4 (C15)"),
+ "C16": dict(text="Theorems C16_* (Properties/C16.v): rotation and handshake messages decode to exactly what was encoded (all stages, optional "
+                  "parts, trailing bytes), unknown handshake parts are skipped; decoders are total Gallina functions (structural/fuel bounded by "
+                  "input length). PARTIAL: NodeInfo round trip (seven-address normalisation) and totality of the REAL decoders (no panic, no hang, "
+                  "no oversized allocation) are decided by the correspondence on round trips, mutated encodings and random bytes incl. TLV lengths "
+                  "near 0xffff.",
+             technique="Coq proof (byte-level TLV lemmas, list induction) + executed correspondence on arbitrary bytes", ref="4 (C16)"),
 }
 NA_REASON = "check not built yet in this revision of /verif (planned, see DESIGN.md section 4); not claimed"
 def main():
